@@ -1,0 +1,122 @@
+//go:build verif
+
+// Contracts for the block allocators (properties C01, C04). Comment-only file.
+package local
+
+// secOf(ss): the device sector a sharedSector object buffers.
+//@ ghost secOf(ref) int
+
+// A holder of a block reference (list membership, open reader, running
+// writer) releases only its own reference, so while the current thread holds
+// one the counter stays >= 1 whatever the other threads do.
+//@ atomic blockDeviceBackedBlock.usecount rely v >= 1
+
+//@ pure allocWF(pa) = pa.sectorSizeBytes >= 1 && pa.sectorSizeBytes <= 1048576
+//@     && pa.blockSectorCount >= 1 && pa.blockSectorCount <= 1099511627776
+//@     && devS(pa.blockDevice) == pa.sectorSizeBytes
+// cursor(pb): the number of bytes of the block that have been handed out.
+//@ pure cursor(pb) = pb.writeOffsetSectors * pb.blockAllocator.sectorSizeBytes
+//@     + ite(pb.sharedSector == nil, 0, pb.sharedSector.writeOffsetBytes)
+//@ pure blkInv(pb) = pb.blockAllocator != nil && allocWF(pb.blockAllocator)
+//@     && 0 <= pb.writeOffsetSectors && pb.writeOffsetSectors <= pb.blockAllocator.blockSectorCount
+//@     && 0 <= pb.deviceOffsetSectors && pb.deviceOffsetSectors <= 1099511627776
+//@     && (pb.sharedSector != nil ==>
+//@           0 < pb.sharedSector.writeOffsetBytes && pb.sharedSector.writeOffsetBytes < pb.blockAllocator.sectorSizeBytes
+//@           && pb.writeOffsetSectors < pb.blockAllocator.blockSectorCount
+//@           && len(pb.sharedSector.data) == pb.blockAllocator.sectorSizeBytes
+//@           && secOf(pb.sharedSector) == pb.deviceOffsetSectors + pb.writeOffsetSectors)
+
+//@ func (*blockDeviceBackedBlock).HasSpace
+//@   requires blkInv(pb)
+//@   ensures [def] result <==> cursor(pb) + sizeBytes <= pb.blockAllocator.blockSectorCount * pb.blockAllocator.sectorSizeBytes
+
+// Put hands out [cursor, cursor+size) and prepares a sector writer for it.
+// The clauses about w and writeOffsetBytes speak about the local variables the
+// returned closures capture.
+//@ func (*blockDeviceBackedBlock).Put
+//@   requires blkInv(pb) && sizeBytes >= 0 && pb.usecount >= 1
+//@   requires [has-space] cursor(pb) + sizeBytes <= pb.blockAllocator.blockSectorCount * pb.blockAllocator.sectorSizeBytes
+//@   requires [sector-lock-free] pb.sharedSector != nil ==> held(pb.sharedSector.lock) == 0
+//@   exitghost secOf(pb.sharedSector) := pb.deviceOffsetSectors + pb.writeOffsetSectors when fresh(pb.sharedSector)
+//@   exitghost wStart(w) := pb.deviceOffsetSectors * pb.blockAllocator.sectorSizeBytes + old(cursor(pb))
+//@   exitghost wStartSec(w) := pb.deviceOffsetSectors + old(pb.writeOffsetSectors)
+//@   exitghost wSize(w) := sizeBytes
+//@   exitghost wEndSec(w) := pb.deviceOffsetSectors + pb.writeOffsetSectors
+//@   exitghost wEndRem(w) := ite(pb.sharedSector == nil, 0, pb.sharedSector.writeOffsetBytes)
+//@   exitghost written(w) := 0
+//@   ensures [writer-inv] wrInv(w) && written(w) == 0 && wSize(w) == sizeBytes
+//@   ensures [inv] blkInv(pb)
+//@   ensures [advance] cursor(pb) == old(cursor(pb)) + sizeBytes
+//@   ensures [offset] writeOffsetBytes == old(cursor(pb))
+//@   ensures [region] wStart(w) == pb.deviceOffsetSectors * pb.blockAllocator.sectorSizeBytes + old(cursor(pb))
+//@   ensures [first] w.firstSector == old(pb.sharedSector) && (w.firstSector != nil <==> w.firstSectorOffsetBytes != 0)
+//@   ensures [last] w.lastSector == pb.sharedSector
+
+//@ func (*inMemoryBlock).HasSpace
+//@   requires 0 <= ib.writeOffsetBytes && ib.writeOffsetBytes <= len(ib.data)
+//@   ensures [def] result <==> ib.writeOffsetBytes + sizeBytes <= len(ib.data)
+
+//@ func (*inMemoryBlock).Put
+//@   requires 0 <= ib.writeOffsetBytes && ib.writeOffsetBytes <= len(ib.data) && sizeBytes >= 0
+//@   requires [has-space] ib.writeOffsetBytes + sizeBytes <= len(ib.data)
+//@   ensures [inv] 0 <= ib.writeOffsetBytes && ib.writeOffsetBytes <= len(ib.data)
+//@   ensures [advance] ib.writeOffsetBytes == old(ib.writeOffsetBytes) + sizeBytes
+//@   ensures [offset] offsetBytes == old(ib.writeOffsetBytes)
+
+// ------------------------------------------------- the sector writer
+// Ghost state of a writer w: its region is [wStart, wStart+wSize) in absolute
+// device bytes; wStartSec is the sector the region starts in; the region ends
+// at byte wEndRem of sector wEndSec; written(w) counts the bytes accepted.
+//@ ghost wStart(ref) int
+//@ ghost wStartSec(ref) int
+//@ ghost wSize(ref) int
+//@ ghost wEndSec(ref) int
+//@ ghost wEndRem(ref) int
+// fill(w): bytes of the sector at w.offsetSectors that w has buffered.
+//@ pure fill(w) = ite(w.firstSector != nil, w.firstSectorOffsetBytes, len(w.partialSector))
+//@ pure wrInv(w) = w.blockAllocator != nil && allocWF(w.blockAllocator)
+//@     && 0 <= written(w) && written(w) <= wSize(w) && wStart(w) >= 0 && wStart(w) + wSize(w) <= 4611686018427387904
+//@     && wStartSec(w) >= 0 && wStartSec(w) * w.blockAllocator.sectorSizeBytes <= wStart(w)
+//@     && wStart(w) < (wStartSec(w) + 1) * w.blockAllocator.sectorSizeBytes
+//@     && wStart(w) + wSize(w) == wEndSec(w) * w.blockAllocator.sectorSizeBytes + wEndRem(w)
+//@     && 0 <= wEndRem(w) && wEndRem(w) < w.blockAllocator.sectorSizeBytes && wEndSec(w) >= 0
+//@     && (w.firstSector != nil ==> held(w.firstSector.lock) == 0) && (w.lastSector != nil ==> held(w.lastSector.lock) == 0)
+//@     && wStartSec(w) <= w.offsetSectors && w.offsetSectors <= wEndSec(w)
+//@     && w.offsetSectors * w.blockAllocator.sectorSizeBytes + fill(w) == wStart(w) + written(w)
+//@     && (w.firstSector != nil ==> 0 < w.firstSectorOffsetBytes && w.firstSectorOffsetBytes < w.blockAllocator.sectorSizeBytes
+//@           && len(w.firstSector.data) == w.blockAllocator.sectorSizeBytes && secOf(w.firstSector) == w.offsetSectors
+//@           && len(w.partialSector) == 0)
+//@     && (w.firstSector == nil ==> 0 <= len(w.partialSector) && len(w.partialSector) < w.blockAllocator.sectorSizeBytes)
+//@     && (w.lastSector != nil ==> len(w.lastSector.data) == w.blockAllocator.sectorSizeBytes && secOf(w.lastSector) == wEndSec(w))
+//@     && (w.lastSector != nil <==> wEndRem(w) != 0)
+//@ typeinv blockDeviceBackedBlockWriter(w) = wrInv(w)
+// The sectors the region touches: every device write must stay inside them.
+//@ pure regionLo(w) = wStartSec(w) * w.blockAllocator.sectorSizeBytes
+//@ pure regionHi(w) = wEndSec(w) * w.blockAllocator.sectorSizeBytes + ite(wEndRem(w) != 0, w.blockAllocator.sectorSizeBytes, 0)
+
+// Two-state invariant of the writer: it never changes the allocator or the
+// last-sector buffer it was created with, and whatever it writes to the device
+// lies inside the sectors of its region.
+//@ typestep blockDeviceBackedBlockWriter(w) = w.blockAllocator == old(w.blockAllocator) && w.lastSector == old(w.lastSector)
+//@     && devLo(w.blockAllocator.blockDevice) >= min(old(devLo(w.blockAllocator.blockDevice)), regionLo(w))
+//@     && devHi(w.blockAllocator.blockDevice) <= max(old(devHi(w.blockAllocator.blockDevice)), regionHi(w))
+
+//@ func (*blockDeviceBackedBlockWriter).Write
+//@   requires wrInv(w)
+//@   requires [b-size] written(w) + len(p) <= wSize(w)
+//@   modifies written(w), w.offsetSectors, w.firstSector, w.firstSectorOffsetBytes, w.partialSector,
+//@            devLo(w.blockAllocator.blockDevice), devHi(w.blockAllocator.blockDevice), devLast(w.blockAllocator.blockDevice)
+//@   exitghost written(w) := old(written(w)) + result0
+//@   ensures [inv] err == nil ==> wrInv(w)
+//@   ensures [step] tstep(w)
+//@   ensures [count] 0 <= result0 && result0 <= len(p) && (err == nil ==> result0 == len(p))
+//@   ensures [inside-region] devLo(w.blockAllocator.blockDevice) >= min(old(devLo(w.blockAllocator.blockDevice)), regionLo(w))
+//@         && devHi(w.blockAllocator.blockDevice) <= max(old(devHi(w.blockAllocator.blockDevice)), regionHi(w))
+
+//@ func (*blockDeviceBackedBlockWriter).flush
+//@   requires wrInv(w) && written(w) == wSize(w)
+//@   modifies devLo(w.blockAllocator.blockDevice), devHi(w.blockAllocator.blockDevice), devLast(w.blockAllocator.blockDevice)
+//@   ensures [last-sector] w.lastSector != nil ==>
+//@         devLast(w.blockAllocator.blockDevice) == secOf(w.lastSector) * w.blockAllocator.sectorSizeBytes
+//@   ensures [inside-region] devLo(w.blockAllocator.blockDevice) >= min(old(devLo(w.blockAllocator.blockDevice)), regionLo(w))
+//@         && devHi(w.blockAllocator.blockDevice) <= max(old(devHi(w.blockAllocator.blockDevice)), regionHi(w))
